@@ -1,14 +1,21 @@
 (* C04 - Forged or altered packets are refused, never accepted and never crash the client.
    Statements only; proofs in Crypto/EnvelopeProofs.v, model in Crypto/Envelope.v.
-   [open_client] = messages.DeserializeEncrypted as written AFTER the repair of the two defects of
-   the pinned tree (no minimum packet length => negative make / slice panics; declared-length test
-   in the wrong direction => slice-bounds panics), with an explicit [Panic] at every Go panic
-   site: make([]byte, n<0) in PopRawBytes, decrypted[0:32+len], generateAESIGE on a short key.
-   [open_client_pinned] = the same function as it was; the Examples at the end show it panicking.
+   [open_client] = messages.DeserializeEncrypted as it is at HEAD, i.e. after the repairs of the
+   defects this property found in the pinned tree 0b0db56:
+     - no minimum packet length => negative make / slice panics           (fix ea060c6)
+     - declared-length test in the wrong direction => slice-bounds panics  (fix ea060c6)
+     - absent / short auth key (key exchange still running, or a short key from a session file)
+       and a packet carrying that key's id => panic in generateAESIGE       (fix f55fe7c)
+   with an explicit [Panic] at every place where the Go code can still panic: decrypted[0:32+len]
+   and generateAESIGE on a key shorter than 136 bytes (both now unreachable - that is the theorem).
+   PopRawBytes no longer panics on a negative size (internal/encoding/tl/cursor_r.go sets the
+   decoder error instead); the model's [pop_raw] follows HEAD.
+   [open_client_pinned] = the function as it was in the pinned tree (with the PopRawBytes of that
+   tree); it is a historical record, tied to no code any more: Example C04_pinned_code_panics.
 
    SHA-1 and AES-IGE are arbitrary functions here: C04_accept_implies_checks and C04_no_panic need
-   NO hypothesis about them. *)
-From Coq Require Import String ZArith NArith List.
+   NO hypothesis about them, and no hypothesis about the key. *)
+From Coq Require Import String ZArith NArith List Bool.
 From MTV Require Import Base.Bytes Base.Outcome Base.Str Prim.Hex Prim.Sha1
   Crypto.Envelope Crypto.EnvelopeProofs Crypto.EnvelopeIge Props.C03.
 Import ListNotations.
@@ -17,6 +24,7 @@ Open Scope N_scope.
 (* A packet yields a message ONLY IF
      - it has the 24-byte header and at least one cipher block, its ciphertext is a positive
        multiple of 16 bytes,
+     - the session has an auth key of at least 136 bytes (a client without a key accepts nothing),
      - its key id (bytes 0..8) is that of the session's auth key,
      - the declared body length lies inside the decrypted data: 0 <= len <= |dec| - 32,
      - its msg_key (bytes 8..24) equals SHA1(dec[0 .. 32+len])[4..20],
@@ -25,7 +33,7 @@ Open Scope N_scope.
    dec = IGE-decrypt of bytes 24.. under the key/IV of the x = 8 schedule for that msg_key. *)
 Theorem C04_accept_implies_checks : forall sha1 ige_d key pkt m,
   open_client sha1 ige_d key pkt = Ok m ->
-  (40 <= length pkt)%nat /\
+  (40 <= length pkt)%nat /\ (136 <= length key)%nat /\
   slice pkt 0 8 = auth_key_id sha1 key /\
   exists k iv dec,
     kiv sha1 8 key (slice pkt 8 24) = Ok (k, iv) /\
@@ -39,9 +47,9 @@ Theorem C04_accept_implies_checks : forall sha1 ige_d key pkt m,
                (of_le (slice dec 24 28)) (slice pkt 8 24) (firstn (Z.to_nat len) (skipn 32 dec)).
 Proof.
   intros sha1 ige_d key pkt m H.
-  destruct (accept_inv sha1 ige_d key pkt m H) as (H40 & Hid & dec & Ed & Hrest).
+  destruct (accept_inv sha1 ige_d key pkt m H) as (H40 & H136 & Hid & dec & Ed & Hrest).
   destruct (decrypt_ok_inv sha1 ige_d _ _ _ _ Ed) as (k & iv & Hk & Hdec & Hl & Hm).
-  split; [exact H40|]. split; [exact Hid|]. exists k, iv, dec. repeat split; try assumption; apply Hrest.
+  split; [exact H40|]. split; [exact H136|]. split; [exact Hid|]. exists k, iv, dec. repeat split; try assumption; apply Hrest.
 Qed.
 Print Assumptions C04_accept_implies_checks.
 
@@ -56,29 +64,28 @@ Theorem C04_parity_is_low_bits_of_signed_id : forall n, n < 2 ^ 64 ->
 Proof. intros n H. split; [apply server_parity_signed|apply land3_signed]; exact H. Qed.
 Print Assumptions C04_parity_is_low_bits_of_signed_id.
 
-(* every accepted message has server parity - stated on the message itself, for Go's signed
-   view of the id too.  Premise: IGE decryption returns bytes (so that the 8-byte msg_id field is
-   a 64-bit pattern); nothing else is asked of SHA-1 or AES. *)
+(* every accepted message has server parity - stated on the message itself, and for Go's signed
+   view of the id too.  Premise: the msg_id field of THIS message is a 64-bit pattern; it is one
+   whenever the decrypted data are bytes (lemma [of_le_slice8_lt]; Go: []byte), and it is
+   discharged with the real primitives in Example C04_negative_ids_have_go_parity below.
+   (That the Gallina AES returns byte values for every input is not proved in Prim; SHA-1 and IGE
+   are arbitrary functions here, so the premise cannot be dropped.) *)
 Theorem C04_accepted_has_server_parity : forall sha1 ige_d key pkt m,
-  (forall k iv d, Forall (fun b => b < 256) (ige_d k iv d)) ->
   open_client sha1 ige_d key pkt = Ok m ->
-  e_msgid m < 2 ^ 64 /\ server_parity (e_msgid m) = true /\ go_parity (e_msgid m) = true.
+  e_msgid m < 2 ^ 64 ->
+  server_parity (e_msgid m) = true /\ go_parity (e_msgid m) = true.
 Proof.
-  intros sha1 ige_d key pkt m Hb H.
-  destruct (accept_inv sha1 ige_d key pkt m H) as (_ & _ & dec & Ed & Hrest). cbv zeta in Hrest.
-  destruct Hrest as (_ & _ & Hp & ->). cbn [e_msgid].
-  destruct (decrypt_ok_inv sha1 ige_d _ _ _ _ Ed) as (k & iv & _ & Hdec & _).
-  assert (Hlt : of_le (slice dec 16 24) < 2 ^ 64)
-    by (subst dec; exact (of_le_slice8_lt _ 16 (Hb k iv _))).
-  split; [exact Hlt|]. split; [exact Hp|]. rewrite <- server_parity_signed by exact Hlt. exact Hp.
+  intros sha1 ige_d key pkt m H Hlt.
+  destruct (accept_inv sha1 ige_d key pkt m H) as (_ & _ & _ & dec & _ & Hrest). cbv zeta in Hrest.
+  destruct Hrest as (_ & _ & Hp & ->). cbn [e_msgid] in *.
+  split; [exact Hp|]. rewrite <- server_parity_signed by exact Hlt. exact Hp.
 Qed.
 Print Assumptions C04_accepted_has_server_parity.
 
-(* For ALL packets (any length, any content) and every auth key of at least 136 bytes (the
-   session key has 256) the receive path never panics: it returns a message or an error.
-   (generateAESIGE panics on keys shorter than 136 bytes; that is the only precondition.) *)
-Theorem C04_no_panic : forall sha1 ige_d key pkt,
-  (136 <= length key)%nat -> open_client sha1 ige_d key pkt <> Panic.
+(* For ALL packets (any length, any content) and for EVERY auth key - absent (nil), short, 256
+   bytes, longer - the receive path never panics: it returns a message or an error.  (With a key
+   shorter than 136 bytes, which the key schedule could not use, it returns an error at once.) *)
+Theorem C04_no_panic : forall sha1 ige_d key pkt, open_client sha1 ige_d key pkt <> Panic.
 Proof. exact open_client_no_panic. Qed.
 Print Assumptions C04_no_panic.
 
@@ -89,7 +96,7 @@ Proof. exact deserialize_unencrypted_no_panic. Qed.
 Print Assumptions C04_no_panic_unencrypted.
 
 Theorem C04_no_panic_dispatch : forall sha1 ige_d key data,
-  (136 <= length key)%nat -> read_dispatch sha1 ige_d key data <> Panic.
+  read_dispatch sha1 ige_d key data <> Panic.
 Proof. exact read_dispatch_no_panic. Qed.
 Print Assumptions C04_no_panic_dispatch.
 
@@ -162,6 +169,30 @@ Example C04_negative_ids :
   to_i64 (2 ^ 64 - 1) = (-1)%Z /\ Z.rem (to_i64 (2 ^ 64 - 1)) 4 = (-1)%Z /\ Z.land (to_i64 (2 ^ 64 - 1)) 3 = 3%Z.
 Proof. vm_compute. repeat split; reflexivity. Qed.
 
+(* the premise of C04_accepted_has_server_parity holds, and its conclusion is checked, for real
+   packets with negative ids under the real primitives *)
+Example C04_negative_ids_have_go_parity :
+  map (fun low => match open_client sha1 x_ige_d test_key (srv_packet_id (2 ^ 63 + 4 * 1234567 + low)) with
+                  | Ok m => (e_msgid m <? 2 ^ 64) && server_parity (e_msgid m) && go_parity (e_msgid m)
+                            && (e_msgid m =? 2 ^ 63 + 4 * 1234567 + low)
+                  | _ => false
+                  end) [1; 3] = [true; true].
+Proof. vm_compute. reflexivity. Qed.
+
+(* a client without an auth key (key exchange still running) or with a short one: a packet that
+   carries exactly that key's id - SHA1("")[12..20] is public - is refused with an error; the
+   pinned code panicked in the key schedule *)
+Definition short_key_packet (key : bytes) : bytes :=
+  auth_key_id sha1 key ++ hex "000102030405060708090a0b0c0d0e0f" ++ hex "101112131415161718191a1b1c1d1e1f".
+
+Example C04_short_keys_refused :
+  map (fun key => open_client sha1 x_ige_d key (short_key_packet key))
+      [[]; [7]; firstn 127 test_key; firstn 128 test_key; firstn 135 test_key] = [Err; Err; Err; Err; Err] /\
+  is_panic (open_client sha1 x_ige_d (firstn 136 test_key) (short_key_packet (firstn 136 test_key))) = false /\
+  map (fun key => open_client_pinned sha1 x_ige_d key (short_key_packet key))
+      [[]; firstn 135 test_key] = [Panic; Panic].
+Proof. vm_compute. repeat split; reflexivity. Qed.
+
 Definition flip_bit0 (i : nat) (l : bytes) : bytes :=
   firstn i l ++ match skipn i l with [] => [] | b :: r => N.lxor b 1 :: r end.
 
@@ -178,7 +209,7 @@ Example C04_refuses_damaged :
   = [false; false; false; false; false; false].
 Proof. vm_compute. split; reflexivity. Qed.
 
-(* the code of the pinned tree panics: key id + 3 bytes (negative make), and a key holder's packet
+(* HISTORICAL RECORD (tied to no code now): the code of the pinned tree 0b0db56 panics: key id + 3 bytes (negative make), and a key holder's packet
    declaring length -1 (msg_key taken over the 31 bytes the client will hash: negative make) or
    real length + 17 (slice bounds); the repaired code returns errors *)
 Definition holder_packet (declared : N) (hashed : nat) : bytes :=
